@@ -51,6 +51,7 @@ namespace sim
     std::string name;         // dist: feature name
     // oracles attached to the op
     std::string eq;           // responses of ops with the same key must be equal
+    std::string neq;          // responses of ops with the same key must differ
     double tol = 0;           // relative tolerance for eq (0 = bit-identical)
     long draws = -1;          // expected number of engine draws (-1: not predicted)
     GrainCheck gc;
